@@ -96,6 +96,7 @@ HARMLESS = [
     ('C18', 'sc3/base/systemactions.py', "        cls._servers[server].update({action: (args, kwargs)})", "        cls._servers[server][action] = (args, kwargs)", 'ServerAction.add: item assignment instead of update'),
     ('C18', 'sc3/base/model.py', "        except KeyError as e:\n            err = True", "        except KeyError as e:\n            err = False", 'unregister stays silent on a missing registration (not asked for by C18)'),
     ('C19', 'sc3/synth/envelope.py', "        return cls([0, level, 0], [dur, dur], 'sine')", "        return cls([0, level, 0], [dur, dur], 'sin')", "Env.sine: the other name of the same shape"),
+    ('C13', 'sc3/seq/patterns/listpatterns.py', "                            lst[bi.mod(pos + j, size)], inval)", "                            lst[(pos + j) % size], inval)", "Pslide: Python's % instead of bi.mod"),
 ]
 
 BREAKING = [
@@ -211,6 +212,10 @@ BREAKING = [
     ('C08', 'sc3/base/clock.py', "        if self._drift:\n            from_time = _libsc3.main.elapsed_time()", "        if not self._drift:\n            from_time = _libsc3.main.elapsed_time()", 'AppClock scheduler re-schedules from its own time instead of the physical present'),
     ('C08', 'sc3/base/clock.py', "            while self._seconds <= value:\n                self._expired.append(self.queue.pop())", "            while True:\n                self._expired.append(self.queue.pop())", 'AppClock scheduler takes entries that are not due yet'),
     ('C08', 'sc3/base/clock.py', "                self._sched_add(delta, item)\n        except stm.StopStream:\n            pass", "                self._sched_add(delta, item)\n        except stm.StopStream:\n            raise", 'StopStream of a task escapes the AppClock scheduler'),
+    ('C13', 'sc3/seq/patterns/filterpatterns.py', "            for _ in range(self.n):\n                inval = stream.next(first_inval)", "            for _ in range(self.n + 1):\n                inval = stream.next(first_inval)", 'Pdrop drops one value too many'),
+    ('C13', 'sc3/seq/patterns/listpatterns.py', "                inval = yield stream_lst[indx % size].next(inval)", "                inval = yield stm.stream(self.lst[indx % size]).next(inval)", 'Pswitch1 restarts the chosen item on every pass'),
+    ('C13', 'sc3/seq/patterns/listpatterns.py', "                pos += step_stream.next(inval)  # raises StopStream", "                pos -= step_stream.next(inval)  # raises StopStream", 'Pslide slides backwards'),
+    ('C13', 'sc3/seq/patterns/listpatterns.py', "                    item = item[j % len(item)]", "                    item = item[0]", 'Place always takes the first element of a sub-list'),
 ]
 
 
